@@ -27,6 +27,7 @@ void     nixsym_trace_str(const char *name, const char *v);
 void     nixsym_finding(const char *id, bool cond);
 void     nixsym_print(const char *msg);
 uint64_t nixsym_concretize_u64(const char *name, uint64_t v, uint32_t maxvals);
+uint32_t nixsym_count_values(uint64_t v, uint32_t maxvals);
 #ifdef __cplusplus
 }
 #endif
